@@ -8,6 +8,7 @@ import (
 	"github.com/reactivego/ivg"
 	"github.com/reactivego/ivg/decode"
 	"github.com/reactivego/ivg/encode"
+	"github.com/reactivego/ivg/render"
 )
 
 // Exhaustive passes of the thorough tier: EVERY float32 bit pattern (C08) and EVERY 4-byte colour (C09)
@@ -172,4 +173,91 @@ func exhaustiveColours(s *Shard, nShards int) {
 		}
 	}
 	s.counts["exhaustive:rgba-4-byte-patterns"] += int(hi - lo)
+}
+
+// exhaustiveBlends: every blend (t, c0, c1) — 2^24 triples — through SetCReg and back (exactness), and its
+// resolution against the reference machine (blend formula, operand tables) over a palette and registers
+// with distinctive contents.
+func exhaustiveBlends(s *Shard, nShards int) {
+	lo := uint64(s.Index) << 24 / uint64(nShards)
+	hi := uint64(s.Index+1) << 24 / uint64(nShards)
+	var e encode.Encoder
+	sink := &numSink{}
+	var m vm
+	var pal [64]color.RGBA
+	for i := range pal {
+		a := uint8(255 - 3*i)
+		pal[i] = color.RGBA{uint8(int(i) % (int(a)/2 + 1)), uint8(int(2*i) % (int(a)/3 + 1)), uint8(int(3*i) % (int(a) + 1)), a}
+	}
+	m.reset(pal)
+	for i := range m.creg {
+		a := uint8(40 + 3*i)
+		m.creg[i] = color.RGBA{uint8(int(5*i) % (int(a) + 1)), uint8(int(7*i) % (int(a)/2 + 1)), uint8(int(11*i) % (int(a)/4 + 1)), a}
+	}
+	creg := m.creg
+	nFail := 0
+	for u := lo; u < hi; u++ {
+		t, c0, c1 := uint8(u>>16), uint8(u>>8), uint8(u)
+		in := ivg.BlendColor(t, c0, c1)
+		e.Reset(ivg.DefaultViewBox, ivg.DefaultPalette)
+		e.SetCReg(uint8(u%7), false, in)
+		bs, err := e.Bytes()
+		*sink = numSink{}
+		var derr error
+		if err == nil {
+			derr = decode.Decode(sink, bs)
+		}
+		got := in.Resolve(&pal, &creg)
+		want := m.resolve(in)
+		if err != nil || derr != nil || sink.nCalls != 1 || sink.col != in || got != want || !premul(got) {
+			nFail++
+			if nFail <= 20 {
+				s.Fail("C09.blend", EncCase([]Call{{Name: "creg", Adj: uint8(u % 7), Col: in}}), fmt.Sprintf("blend(%d,%#02x,%#02x): encode %v, decode %v, delivered %v, resolves to %v, the blend formula gives %v", t, c0, c1, err, derr, sink.col, got, want))
+			}
+		}
+	}
+	s.counts["exhaustive:blend-triples"] += int(hi - lo)
+}
+
+// exhaustiveClamp: every float32 value as an offset through the four spread modes, against the property's
+// own description (none: outside [0,1] is "no colour"; pad: the nearer end; repeat: the fractional part;
+// reflect: a triangle wave of period 2).
+func exhaustiveClamp(s *Shard, nShards int) {
+	lo := uint64(s.Index) << 32 / uint64(nShards)
+	hi := uint64(s.Index+1) << 32 / uint64(nShards)
+	nFail := 0
+	for u := lo; u < hi; u++ {
+		x := float64(math.Float32frombits(uint32(u)))
+		if math.IsNaN(x) || math.IsInf(x, 0) {
+			continue
+		}
+		for sp := 0; sp < 4; sp++ {
+			got := render.Spread(sp).Clamp(x)
+			var want float64
+			switch {
+			case x >= 0 && x <= 1:
+				want = x
+			case sp == 0:
+				want = -1 // "transparent black": the implementation's marker for no colour
+			case sp == 1:
+				want = math.Max(0, math.Min(1, x))
+			case sp == 3:
+				want = x - math.Floor(x)
+			default:
+				t := math.Mod(math.Abs(x), 2)
+				if t > 1 {
+					t = 2 - t
+				}
+				want = t
+			}
+			// the triangle wave and the fractional part are exact in float64 for float32 arguments
+			if got != want && !(math.Abs(got-want) <= 1e-9 && math.Abs(x) > 1e6) {
+				nFail++
+				if nFail <= 20 {
+					s.Fail("C15.spread", fmt.Sprintf("clamp %d %016x |", sp, math.Float64bits(x)), fmt.Sprintf("spread %d at offset %g: Clamp gives %g, the spread mode prescribes %g", sp, x, got, want))
+				}
+			}
+		}
+	}
+	s.counts["exhaustive:float32-offsets-x-4-spreads"] += int(hi - lo)
 }
